@@ -254,6 +254,27 @@ def raiseInFinallyOverJumpB : List Py.Stmt → Bool
   | s :: rest => raiseInFinallyOverJumpS s || raiseInFinallyOverJumpB rest
 end
 
+mutual
+/-- a `try` with an `else` clause whose protected block contains a break/continue/return: the class of the
+C01 finding `C01-jump-in-try-body-with-else` (repaired by guarding `Try.orelse` in the continue / return passes) -/
+def jumpInTryBodyWithElseS : Py.Stmt → Bool
+  | .try_ _ b h e f =>
+      (!e.isEmpty && hasJumpB b) || jumpInTryBodyWithElseB b || jumpInTryBodyWithElseB h ||
+        jumpInTryBodyWithElseB e || jumpInTryBodyWithElseB f
+  | .functionDef _ _ _ b _ _ _ => jumpInTryBodyWithElseB b
+  | .classDef _ _ _ _ b _ => jumpInTryBodyWithElseB b
+  | .for_ _ _ _ b e _ _ => jumpInTryBodyWithElseB b || jumpInTryBodyWithElseB e
+  | .while_ _ _ b e => jumpInTryBodyWithElseB b || jumpInTryBodyWithElseB e
+  | .if_ _ _ b e => jumpInTryBodyWithElseB b || jumpInTryBodyWithElseB e
+  | .with_ _ _ b _ => jumpInTryBodyWithElseB b
+  | .handler _ _ _ b => jumpInTryBodyWithElseB b
+  | .other _ _ _ bs => jumpInTryBodyWithElseB bs
+  | _ => false
+def jumpInTryBodyWithElseB : List Py.Stmt → Bool
+  | [] => false
+  | s :: rest => jumpInTryBodyWithElseS s || jumpInTryBodyWithElseB rest
+end
+
 /-! ### comparison of core programs up to the spelling of generated names -/
 
 mutual
